@@ -57,6 +57,48 @@ void operator delete[](void* p) noexcept {
 void operator delete[](void* p, std::size_t) noexcept { operator delete[](p); }
 #endif
 
+// ---- scratch objects of the library that are observable from outside: the GSL random generator of the norm estimator.
+// The three entry points are interposed (the executable's definitions win over libgsl.so's); in trace mode every
+// make / first use by a thread / drop is an event of module Threads (ResMake, ResUse, ResDrop).
+#include <dlfcn.h>
+#include <gsl/gsl_rng.h>
+static const int MAXR = 16;
+static const gsl_rng* res_ptr[MAXR + 1]; static int res_last_user[MAXR + 1];
+static int res_id(const gsl_rng* r, bool make) {
+  for (int i = 1; i <= MAXR; i++) if (res_ptr[i] == r) return i;
+  if (!make) return 0;
+  for (int i = 1; i <= MAXR; i++) if (!res_ptr[i]) { res_ptr[i] = r; res_last_user[i] = 0; return i; }
+  fprintf(stderr, "scratch table full\n"); _exit(3);
+}
+extern "C" gsl_rng* gsl_rng_alloc(const gsl_rng_type* T) {
+  typedef gsl_rng* (*F)(const gsl_rng_type*);
+  static F real = (F)dlsym(RTLD_NEXT, "gsl_rng_alloc");
+  gsl_rng* r = real(T);
+  if (tracing && my_tid > 0) { std::lock_guard<std::mutex> g(logm); logline("{\"e\":\"ResMake\",\"t\":%d,\"r\":%d}", my_tid, res_id(r, true)); }
+  return r;
+}
+extern "C" void gsl_rng_free(gsl_rng* r) {
+  typedef void (*F)(gsl_rng*);
+  static F real = (F)dlsym(RTLD_NEXT, "gsl_rng_free");
+  if (tracing && my_tid > 0) {
+    std::lock_guard<std::mutex> g(logm);
+    int id = res_id(r, false);
+    if (id) { logline("{\"e\":\"ResDrop\",\"t\":%d,\"r\":%d}", my_tid, id); res_ptr[id] = nullptr; }
+  }
+  real(r);
+}
+extern "C" unsigned long int gsl_rng_uniform_int(const gsl_rng* r, unsigned long int n) {
+  typedef unsigned long int (*F)(const gsl_rng*, unsigned long int);
+  static F real = (F)dlsym(RTLD_NEXT, "gsl_rng_uniform_int");
+  if (tracing && my_tid > 0) {
+    std::lock_guard<std::mutex> g(logm);
+    int id = res_id(r, false);
+    // one event per change of user (a generator made before the workers started, or by main, has no id: id 0 is never a step)
+    if (id == 0 || res_last_user[id] != my_tid) { logline("{\"e\":\"ResUse\",\"t\":%d,\"r\":%d}", my_tid, id); if (id) res_last_user[id] = my_tid; }
+  }
+  return real(r, n);
+}
+
 static void sink(const char* tag, const void* p0, const void* p1, long a, long b) {
   if (!tracing || my_tid <= 0) return;
   std::lock_guard<std::mutex> g(logm);
